@@ -45,7 +45,10 @@ property on the changed code; "broken only" = the check's correspondence (or a p
 the search found no input violating *that* property, and it printed
 `VIOLATION ... no-failing-input-found` — expected for checks of *other* properties that share
 an operation with the changed code. Rows for rounds 1-3 were produced before the last
-improvements (C04-1 now yields a failing input through the mutation search).
+improvements (C04-1 now yields a failing input through the mutation search). After the last
+changes to the machinery (hardening of `check`, new conclusion checks) all 120 changes were
+run once more against their own property's quick check: each is reported with a concrete
+failing input.
 
 %s
 **Systematic single-site mutants.** Independently of the hand-made changes, `tools/mutgen.py`
